@@ -21,7 +21,7 @@ from harness import core
 
 MODULE = 'PyPhysim.Properties.C05'
 DRIVER = 'drv_c05'
-GENERATED = ['C05Loop']
+GENERATED = ['C05Loop', 'C05Grid']
 
 CLAIM = {
     'technique': 'Lean 4 induction over outcome streams and variation lists (loop invariant against a fold '
@@ -65,7 +65,12 @@ CLAIM = {
             'generated_guard_order / generated_periodic_save_once_per_iteration pin the order of the two stop tests '
             'and the one periodic-save call per loop iteration. A semantic edit of the skeleton is refused by the '
             'translator or breaks one of these proofs; renamings, extraction into private helpers and '
-            'while True + break restructurings regenerate the same module.',
+            'while True + break restructurings regenerate the same module. Likewise get_unpacked_params_list and '
+            'get_num_unpacked_variations are re-evaluated from the AST over a small algebra of list terms (loops '
+            'over a symbolic list are executed once and summarised as maps / families of dictionary entries; '
+            'Generated/C05Grid.lean) and generated_grid_matches_model proves: the combinations are the product over '
+            'the name-SORTED parameters with the names paired in the same order, _unpack_index is the list position, '
+            'the number of variations (a product of lengths in any order) is the product of the dimensions.',
     'note': 'Trusted beyond the common base: the hand model <-> code correspondence (a behaviour not reached by '
             'the generators is not tied), numpy reshape/indexing modelled as row-major index arithmetic, pickle '
             'round trip of partial results, Python str ordering = Lean String ordering. Partial: lookup theorems '
